@@ -77,6 +77,57 @@ class Resolver:
         self._active = set()
         self._callsites = None
 
+    def _fdopen_mode(self, call, fn, mod):
+        """Effective mode of os.fdopen(fd, mode): whether the file starts empty is decided by the flags of the os.open that
+        produced the descriptor, not by the mode string.  Unknown descriptor origin -> None (non constant)."""
+        mode = open_mode(call)
+        if mode is None or not call.args:
+            return None
+        if not any(c in mode for c in "wax+"):
+            return mode
+        src = call.args[0]
+        if isinstance(src, ast.Name) and fn is not None:
+            vals = [p for w, p in self.bindings(fn).get(src.id, []) if w == "value"]
+            unp = [p for w, p in self.bindings(fn).get(src.id, []) if w == "unpack"]
+            if len(vals) == 1 and not unp:
+                src = vals[0]
+            elif len(unp) == 1 and not vals and isinstance(unp[0][0], ast.Call):
+                # fd, path = tempfile.mkstemp(...): a fresh, empty file
+                tg = {t[1] for t in self.call_targets(unp[0][0], fn, mod) if t[0] == "ext"}
+                if tg & {"tempfile.mkstemp"} and unp[0][1] == 0:
+                    return mode.replace("w", "x") if "w" in mode else mode
+                return None
+            else:
+                return None
+        if not isinstance(src, ast.Call):
+            return None
+        tg = {t[1] for t in self.call_targets(src, fn, mod) if t[0] == "ext"}
+        if "os.open" not in tg or len(src.args) < 2:
+            return None
+        flags = set()
+        fexpr = src.args[1]
+        if isinstance(fexpr, ast.Name) and fn is not None:
+            vals = [p for w, p in self.bindings(fn).get(fexpr.id, [])]
+            kinds = {w for w, p in self.bindings(fn).get(fexpr.id, [])}
+            if len(vals) != 1 or kinds != {"value"}:
+                return None
+            fexpr = vals[0]
+        for x in ast.walk(fexpr):
+            if isinstance(x, ast.Attribute) and x.attr.startswith("O_"):
+                flags.add(x.attr)
+            elif isinstance(x, ast.Name) and x.id.startswith("O_"):
+                flags.add(x.id)
+            elif isinstance(x, (ast.Name, ast.Call)) and not (isinstance(x, ast.Name) and x.id in ("os", "getattr")):
+                if isinstance(x, ast.Call) and isinstance(x.func, ast.Name) and x.func.id == "getattr":
+                    continue        # getattr(os, "O_BINARY", 0)
+                return None         # flags not constant
+        rest = mode.replace("w", "").replace("a", "").replace("x", "")
+        if "O_TRUNC" in flags or ("O_EXCL" in flags and "O_CREAT" in flags):
+            return "w" + rest
+        if "O_APPEND" in flags:
+            return "a" + rest
+        return "r+" + rest.replace("+", "")
+
     # ------------------------------------------------------------------ bindings
     def bindings(self, fn):
         """name -> list of (kind_of_binding, payload) inside function fn."""
@@ -552,6 +603,8 @@ class Resolver:
             return self.kinds(k[1].body, fn, mod)
         if t == "ext":
             d = k[1]
+            if d == "os.fdopen":
+                return {("file", self._fdopen_mode(call, fn, mod))}
             if d in OPEN_FUNCS:
                 return {("file", open_mode(call))}
             if d in EXT_RESULT:
